@@ -6,7 +6,11 @@ import ProfiVerif.Props.C11
 import ProfiVerif.Props.C15
 import ProfiVerif.Props.C16
 import ProfiVerif.Props.C02
+import ProfiVerif.Props.C13
 import ProfiVerif.Lemmas.StationProgress
+import ProfiVerif.Lemmas.TimedRing2Step
+import ProfiVerif.Lemmas.TimedRingCrash
+import ProfiVerif.Lemmas.TimedRingAgree
 
 namespace PV.C06
 open PV
@@ -413,5 +417,270 @@ example : ∃ c', pollInner { s := listenDemo, apps := [], rx := [] } 1600 false
   obtain ⟨c', h, -, htx, -⟩ := claim_progress { s := listenDemo, apps := [], rx := [] }
     1600 0 hinv rfl rfl rfl rfl (Or.inl ⟨none, 0, rfl⟩) (by decide) (by decide)
   exact ⟨c', h, htx⟩
+
+/-! ## Ring level: the successor stops for good in the timed two-station ring -/
+
+/-- The ring invariant of C01 in phase `pass` (station `x` has just passed the token) gives the crash invariant
+`CInv` for `x`, provided `x` was last polled before its slot time ran out. -/
+theorem crash_invariant_of_ring (cfg : Cfg) (M : List Nat) (adr : Nat → Nat) (n : Net) (v : NView)
+    (h : NInv cfg M adr n v) (hph : v.ph = .pass)
+    (hseen : n.bus.seen.getD v.x 0 ≤ v.tr.start + (cfg.b33 : Nat) + (cfg.slot : Nat)) :
+    CInv cfg M adr n v.x v.sx .first v.tr.start :=
+  CInv.ofNInv h hph hseen
+
+/-- **Recovery from a dead successor in the timed two-station ring** (ring-level clause of C06, clean crash).
+Two station models on the byte-accurate bus of `Model/Net.lean`; station `x` has passed the token to the other
+station at `s0` (ring invariant `NInv` of C01 in phase `pass`); from then on the other station is never polled
+again — it does not accept the token and stays silent — and `x` is polled at increasing times with gaps at most
+`P` (`2 + 2P + bits 33 + ⌈11 bit⌉ ≤ Tslot`).  Then (`CrashRun`): every poll of `x` returns regularly and
+receives nothing; `x` transmits exactly at the first poll after each slot-time expiry — the same token to the
+dead station a second and a third time, the `k`-th transmission no later than `s0 + (k−1)·(bits 33 + Tslot + P)`
+— and at the first poll after the third expiry, no later than `s0 + 3·(bits 33 + Tslot + P)`, it removes the
+dead station from its LAS, sends the token to itself and is in `UseToken`, alone in its ring view
+(`RingView [adr x]`: LAS = {own address}, NS = PS = TS); every later poll returns regularly. -/
+theorem successor_crash_recovery (cfg : Cfg) (hok : cfg.Ok) (M : List Nat) (adr : Nat → Nat) (n : Net) (v : NView)
+    (h : NInv cfg M adr n v) (hph : v.ph = .pass) (hN : n.stations.length = 2)
+    (hseen : n.bus.seen.getD v.x 0 ≤ v.tr.start + (cfg.b33 : Nat) + (cfg.slot : Nat))
+    (evs : List Int) (hs : SchedXT cfg.P (n.bus.seen.getD v.x 0) evs) :
+    CrashRun cfg M adr v.x v.tr.start 1 n evs :=
+  crash_run hok M adr v.x v.tr.start evs n v.sx .first v.tr.start (CInv.ofNInv h hph hseen) hN (by simp [Attempt.num]) hs
+
+/-- The three kinds of poll of the survivor, one at a time (`CInv` is kept until recovery). -/
+theorem successor_crash_wait (cfg : Cfg) (hok : cfg.Ok) (M : List Nat) (adr : Nat → Nat) (n : Net) (x : Nat) (sx : NetStation)
+    (att : Attempt) (s : Int) (h : CInv cfg M adr n x sx att s) (now : Int) (hown : n.bus.seen.getD x 0 < now)
+    (hw : now ≤ s + (cfg.b33 : Nat) + (cfg.slot : Nat)) :
+    ∃ n' c, n.poll x now = (n', [], some (.ok c)) ∧ c.tx = none ∧ CInv cfg M adr n' x sx att s :=
+  crash_wait h hok now hown hw
+
+theorem successor_crash_resend (cfg : Cfg) (hok : cfg.Ok) (M : List Nat) (adr : Nat → Nat) (n : Net) (x : Nat) (sx : NetStation)
+    (att : Attempt) (s : Int) (h : CInv cfg M adr n x sx att s) (hatt : att ≠ .third) (now : Int)
+    (hown : n.bus.seen.getD x 0 < now) (hexp : s + (cfg.b33 : Nat) + (cfg.slot : Nat) < now) :
+    ∃ n' c next, n.poll x now = (n', [], some (.ok c)) ∧
+      c.tx = some (StationGap.tokenBytes (TokenRing.cycSucc (adr x) M) (adr x)) ∧
+      ((att = .first ∧ next = .second) ∨ (att = .second ∧ next = .third)) ∧
+      CInv cfg M adr n' x (upSt sx c) next now :=
+  crash_resend h hok hatt now hown hexp
+
+theorem successor_crash_removed (cfg : Cfg) (hok : cfg.Ok) (M : List Nat) (adr : Nat → Nat) (n : Net) (x : Nat) (sx : NetStation)
+    (s : Int) (h : CInv cfg M adr n x sx .third s) (hN : n.stations.length = 2) (now : Int)
+    (hown : n.bus.seen.getD x 0 < now) (hexp : s + (cfg.b33 : Nat) + (cfg.slot : Nat) < now) :
+    ∃ n' c, n.poll x now = (n', [], some (.ok c)) ∧ c.tx = some (StationGap.tokenBytes (adr x) (adr x)) ∧
+      c.s.st = .useToken ⟨now, none⟩ false ∧ RingView [adr x] (adr x) c.s.ring ∧ Inv c.s c.apps ∧
+      n'.stations[x]? = some (upSt sx c) :=
+  crash_final h hok hN now hown hexp
+
+/-! Non-vacuity: stations 3 and 5 (indices 0, 1) at 500 kbit/s, `Tslot` = 400 µs, `P` = 100 µs (parameters and ring
+views of the C13 example).  Station 5 passed the token to station 3 at time 0 (its poll at 0) and supervises;
+station 3, last polled at −30 µs, has not seen anything of the token yet — and is never polled again.  Station 5
+is polled every 90 µs: it repeats the token at 540 and 1080 µs, removes station 3 at 1620 µs ≤ 3·566 µs. -/
+open PV.C13 in
+def sC5 : Station :=
+  { (Station.new pR5) with online := true, st := .checkTokenPass .first, lastBusActivity := some 66, ring := ringR 5 }
+open PV.C13 in
+def sC3 : Station :=
+  { (Station.new pR3) with online := true, st := .activeIdle none none 0, lastBusActivity := some (-40), ring := ringR 3 }
+
+open PV.C13 in
+theorem sC5_inv : Inv sC5 [] := by
+  have h := inv_new pR5 [] (by decide) (by decide) (by intro s hs; cases hs)
+  exact ⟨h.addr, h.hsa, ringR_ok 5 (by decide), fun ho => by simp [sC5] at ho, h.gap, fun a ha => by simp [sC5] at ha,
+    fun a ha => by simp [sC5] at ha, h.app, fun a d ha => by simp [sC5] at ha, h.scripts, by simp [sC5]⟩
+open PV.C13 in
+theorem sC3_inv : Inv sC3 [] := by
+  have h := inv_new pR3 [] (by decide) (by decide) (by intro s hs; cases hs)
+  exact ⟨h.addr, h.hsa, ringR_ok 3 (by decide), fun ho => by simp [sC3] at ho, h.gap, fun a ha => by simp [sC3] at ha,
+    fun a ha => by simp [sC3] at ha, h.app, fun a d ha => by simp [sC3] at ha, h.scripts, by simp [sC3]⟩
+
+def tokC : Transmission := { start := 0, sender := 1, bytes := StationGap.tokenBytes 3 5, dropped := false }
+def nsC3 : NetStation := { s := sC3, apps := [], online := true }
+def nsC5 : NetStation := { s := sC5, apps := [], online := true }
+def netC : Net := { bus := { rate := 500000, txs := [tokC], seen := [-30, 0] }, stations := [nsC3, nsC5] }
+def viewC : NView := { x := 1, sx := nsC5, pre := [], tr := tokC, ph := .pass, H := 332, Lo := 132, tl := 0 }
+
+open PV.C13 in
+theorem stokC3 : StOkN cfgR MR nsC3 3 :=
+  ⟨rfl, rfl, (fun s hs => by cases hs), sC3_inv, rfl, rfl, rfl, rfl, ringR_view 3 (by decide), by decide⟩
+open PV.C13 in
+theorem stokC5 : StOkN cfgR MR nsC5 5 :=
+  ⟨rfl, rfl, (fun s hs => by cases hs), sC5_inv, rfl, rfl, rfl, rfl, ringR_view 5 (by decide), by decide⟩
+
+open PV.C13 in
+theorem ninvC : NInv cfgR MR adrR netC viewC := by
+  refine ⟨ringCfgR, by decide, rfl, stokC5, ⟨rfl, rfl, rfl, rfl, List.pairwise_singleton _ _, ?_, ?_⟩, rfl, ?_, ?_, ?_, ?_, ?_,
+    rfl, rfl, ?_⟩
+  · intro t ht; simp only [netC, List.mem_singleton] at ht; subst ht; rfl
+  · intro t ht; simp only [netC, List.mem_singleton] at ht; subst ht
+    exact ⟨1, by decide, rfl, .inl (by decide)⟩
+  · intro o ho; simp only [netC, List.mem_singleton] at ho; subst ho; exact .inl rfl
+  · intro l hl o ho hs; simp only [netC, List.mem_singleton] at ho; subst ho
+    have : l = 66 := by
+      have : viewC.sx.s.lastBusActivity = some 66 := rfl
+      rw [this] at hl; exact (Option.some.inj hl).symm
+    subst this; decide
+  · intro j hj hjx
+    have : j = 0 := by simp only [netC, viewC, List.length_cons, List.length_nil] at hj hjx; omega
+    subst this
+    refine ⟨nsC3, rfl, stokC3, [], [tokC], true, -40, rfl, ?_, ?_, by decide, by decide, ?_, ?_, rfl, .inl (by decide), ?_, ?_, ?_⟩
+    · intro o ho; cases ho
+    · intro t ht; simp only [List.mem_singleton] at ht; subst ht; decide
+    · intro o ho hs; simp only [netC, List.mem_singleton] at ho; subst ho; cases hs
+    · intro t rest hrs; cases hrs; decide
+    · intro t ht; cases ht
+    · intro _; simp
+    · simp only [if_true]; exact ⟨⟨none, 0, rfl⟩, by decide⟩
+  · intro j hj
+    have : j = 0 ∨ j = 1 := by simp only [netC, List.length_cons, List.length_nil] at hj; omega
+    rcases this with rfl | rfl <;> decide
+  · intro t ht; simp only [netC, List.mem_singleton] at ht; subst ht; decide
+  · unfold PhaseOkN
+    show _ ∧ _
+    refine ⟨rfl, by decide, rfl, rfl, by decide, by decide, by decide, ?_⟩
+    intro s hs hsa
+    have : s = 0 ∨ s = 1 := by simp only [netC, List.length_cons, List.length_nil] at hs; omega
+    rcases this with rfl | rfl
+    · decide
+    · exact absurd hsa (by decide)
+
+def evsC : List Int :=
+  [90, 180, 270, 360, 450, 540, 630, 720, 810, 900, 990, 1080, 1170, 1260, 1350, 1440, 1530, 1620, 1710, 1800]
+
+open PV.C13 in
+example : CrashRun cfgR MR adrR 1 0 1 netC evsC :=
+  successor_crash_recovery cfgR cfgR_ok MR adrR netC viewC ninvC rfl rfl (by decide) evsC (by
+    show SchedXT 100 0 evsC
+    simp [SchedXT, evsC])
+
+/-! ## Ring level (timed): never two token holders, agreement is kept -/
+
+/-- **Token uniqueness and LAS agreement are kept along every run of the stable timed ring** (any `N ≥ 2`
+station models on the byte-accurate bus of `Model/Net.lean`, with or without unanswered application traffic;
+hypotheses as in `PV.C01.n_station_ring_run_apps`: the ring invariant `NInv` at the start, every station polled
+at least every `P` µs).  Before every event and at the end of the run (`AgreeRun`): at most one station is in a
+token-holding state (`UseToken`, `AwaitDataResponse`, `AwaitStatusResponse`, `PassToken`, `ClaimToken`), and
+every station's ring view is the member list `M` — LAS = `M`, valid, NS and PS the cyclic neighbours of its own
+address (the "agreement is never lost again" half of C02 for the timed system; reaching the agreement from a
+cold start is not proved). -/
+theorem stable_ring_agreement (cfg : Cfg) (hok : cfg.Ok) (hP100 : cfg.P ≤ 100000) (M : List Nat) (adr : Nat → Nat)
+    (n : Net) (v : NView) (h : NInv cfg M adr n v) (evs : List (Nat × Int)) (hs : SchedN cfg.P n v.tl evs) :
+    AgreeRun M adr n evs :=
+  ringN_agree_run hok hP100 M adr evs n v h hs
+
+/-- One state: the ring invariant gives agreement and token uniqueness. -/
+theorem ring_invariant_agrees (cfg : Cfg) (M : List Nat) (adr : Nat → Nat) (n : Net) (v : NView)
+    (h : NInv cfg M adr n v) : Agree M adr n := h.agree
+
+/-! Non-vacuity: the three-station example of C01 with application traffic. -/
+example : AgreeRun PV.C01.M3 PV.C01.adr3 PV.C01.net3a PV.C01.evs3 :=
+  stable_ring_agreement PV.C01.cfg2 PV.C01.cfg2_ok (by decide) PV.C01.M3 PV.C01.adr3 PV.C01.net3a PV.C01.view3a
+    PV.C01.ninv3a PV.C01.evs3
+    (schedN_of_times _ _ _ _ (by
+      show SchedNT 100 3 [0, 70, 68] 70 PV.C01.evs3
+      simp [SchedNT, PV.C01.evs3]
+      decide))
+
+/-! ## Ring level (timed): the token holder stops for good — the survivor generates a new token -/
+
+/-- A listener of the stable ring that is idle, has been polled after the end of every transmission and whose
+stamp is not in the future satisfies the quiet-survivor invariant `QInv`. -/
+theorem quiet_invariant_of_ring (cfg : Cfg) (hok : cfg.Ok) (M : List Nat) (adr : Nat → Nat) (n : Net) (v : NView)
+    (h : NInv cfg M adr n v) (j : Nat) (hj : j < n.stations.length) (hjx : j ≠ v.x) (st : NetStation)
+    (hst : n.stations[j]? = some st) (hidle : ∃ np coll, st.s.st = .activeIdle none np coll)
+    (hall : ∀ t ∈ n.bus.txs, cEnd cfg t ≤ n.bus.seen.getD j 0)
+    (hstamp : ∀ l, st.s.lastBusActivity = some l → l ≤ n.bus.seen.getD j 0) :
+    ∃ l, QInv cfg M adr n j st l :=
+  QInv.ofNInv h hok j hj hjx st hst hidle hall hstamp
+
+/-- The poll at which the quiet survivor's token-lost time-out has run out: it claims the token. -/
+theorem holder_crash_claim_step (cfg : Cfg) (hok : cfg.Ok) (M : List Nat) (adr : Nat → Nat) (n : Net) (j : Nat)
+    (st : NetStation) (l : Int) (h : QInv cfg M adr n j st l) (now : Int) (hown : n.bus.seen.getD j 0 < now)
+    (hexp : l + (st.s.p.tokenLostTimeout : Nat) ≤ now) :
+    ∃ n' c, n.poll j now = (n', [], some (.ok c)) ∧ c.tx = some (selfToken (adr j)) ∧
+      c.s.st = .claimToken .secondToken ∧ c.s.ring = st.s.ring.claimToken ∧ Inv c.s c.apps ∧
+      n'.stations[j]? = some (upSt st c) := by
+  obtain ⟨hd, hphy⟩ := quiet_deliver h hok now hown
+  obtain ⟨np, coll, hst⟩ := h.idle
+  have htto := h.okj.tto
+  have hb33 := h.okj.b33
+  have hgm : cfg.b33 ≤ cfg.gmax := by unfold Cfg.gmax; omega
+  obtain ⟨c, hc, hinv, htx, hcs, -, hring, -⟩ := claim_progress { s := st.s, apps := st.apps, rx := [] } now l h.okj.inv
+    h.okj.son rfl rfl h.stamp (.inr ⟨none, np, coll, hst⟩) (by show (now - l).natAbs ≥ st.s.p.tokenLostTimeout; omega)
+    (by show l + (st.s.p.bits 33 : Nat) < now; rw [hb33]; omega)
+  have hp' : st.s.poll st.apps now (Bus.transmitting { n.bus with seen := n.bus.seen.set j now } j now)
+      (st.rx ++ []) = .ok c := by rw [transmitting_seen, h.rx, hphy]; exact hc
+  have hpe := Net.poll_eq n j now st _ [] c h.gj h.okj.alive h.okj.online hd hp'
+  refine ⟨_, c, hpe, by rw [htx]; show _ = some (selfToken (adr j)); rw [← h.okj.addr], hcs, hring, hinv, ?_⟩
+  exact List.getElem?_set_self h.jlt
+
+/-- Run of the quiet survivor (`T` = stamp + token-lost time-out, `lim` = latest time of the claim): every poll
+returns regularly and receives nothing; before `T` nothing is transmitted; the first poll at or after `T` — no
+later than `lim` — transmits the token addressed to the station itself (`ClaimToken`); afterwards every poll
+returns regularly. -/
+def ClaimRun (j aj : Nat) (lim T : Int) : Net → List Int → Prop
+  | _, [] => True
+  | n, now :: rest =>
+    ∃ n' c, n.poll j now = (n', [], some (.ok c)) ∧ now ≤ lim ∧
+      ((c.tx = none ∧ now < T ∧ ClaimRun j aj lim T n' rest) ∨
+       (T ≤ now ∧ c.tx = some (selfToken aj) ∧ c.s.st = .claimToken .secondToken ∧ SoloRun j n' rest))
+
+/-- **The token holder stops for good: the survivor generates a new token** (ring-level clause of C06, lost
+token).  Station models on the byte-accurate bus of `Model/Net.lean`; the survivor `j` is idle, up to date and
+has stamp `l` (`QInv`, e.g. a listener of the stable ring after the end of the holder's last transmission:
+`quiet_invariant_of_ring`); from now on only `j` is polled, at increasing times with gaps at most `P`.  Then
+(`ClaimRun`): every poll returns regularly and receives nothing; nothing is transmitted before
+`l + Tto` (its token-lost time-out `Tsl·(6 + 2·TS)`); the first poll at or after `l + Tto` — no later than
+`max(last poll, l + Tto) + P` — transmits the self-addressed token, the station is in `ClaimToken`; all later
+polls return regularly. -/
+theorem holder_crash_claim (cfg : Cfg) (hok : cfg.Ok) (M : List Nat) (adr : Nat → Nat) (j : Nat) (st : NetStation) (l : Int)
+    (S : Int) : ∀ (evs : List Int) (n : Net), QInv cfg M adr n j st l → n.bus.seen.getD j 0 ≤ S →
+    l + (st.s.p.tokenLostTimeout : Nat) ≤ S → SchedXT cfg.P (n.bus.seen.getD j 0) evs →
+    ClaimRun j (adr j) (S + (cfg.P : Nat)) (l + (st.s.p.tokenLostTimeout : Nat)) n evs := by
+  intro evs
+  induction evs with
+  | nil => intro _ _ _ _ _; trivial
+  | cons now rest ih =>
+    intro n h hS hT hsch
+    obtain ⟨hlt, hle, hrest⟩ := hsch
+    have hjs : j < n.bus.seen.length := by rw [h.log.seen]; exact h.jlt
+    have hseen' : ∀ n' inc r, n.poll j now = (n', inc, r) → n'.bus.seen.getD j 0 = now := by
+      intro n' inc r hp
+      have := Net.poll_seenN n j now
+      rw [hp] at this
+      simp only at this
+      rw [this, seen_set_self _ _ _ hjs]
+    by_cases hw : now < l + (st.s.p.tokenLostTimeout : Nat)
+    · obtain ⟨n', c, hp, htx, hinv'⟩ := quiet_wait h hok now hlt hw
+      refine ⟨n', c, hp, by omega, .inl ⟨htx, hw, ?_⟩⟩
+      exact ih n' hinv' (by rw [hseen' _ _ _ hp]; omega) hT (by rw [hseen' _ _ _ hp]; exact hrest)
+    · obtain ⟨n', c, hp, htx, hcs, -, hinvc, hgj'⟩ := holder_crash_claim_step cfg hok M adr n j st l h now hlt (by omega)
+      refine ⟨n', c, hp, by omega, .inr ⟨by omega, htx, hcs, ?_⟩⟩
+      exact solo_regular j rest n' (upSt st c) hgj' h.okj.alive h.okj.online hinvc
+
+/-! Non-vacuity: in the three-station example of C01 (`net3a`: station 5 holds the token since 70 µs) station 7
+(index 2) is idle, was polled at 68 µs after the end (66 µs) of the only transmission and has stamp 68.  If from
+now on only station 7 is polled (every 90 µs), it claims the token at the first poll at or after 68 + 8000 µs. -/
+example : ∃ l : Int, QInv PV.C01.cfg2 PV.C01.M3 PV.C01.adr3 PV.C01.net3a 2 PV.C01.ns3c l :=
+  quiet_invariant_of_ring PV.C01.cfg2 PV.C01.cfg2_ok PV.C01.M3 PV.C01.adr3 PV.C01.net3a PV.C01.view3a PV.C01.ninv3a 2
+    (by decide) (by decide) PV.C01.ns3c rfl ⟨none, 0, rfl⟩
+    (by intro t ht; simp only [PV.C01.net3a, List.mem_singleton] at ht; subst ht; decide)
+    (by intro l hl; have : PV.C01.ns3c.s.lastBusActivity = some 68 := rfl; rw [this] at hl; cases hl; decide)
+
+/-- Equidistant poll times `a + d, a + 2d, …` (`k` of them). -/
+def apList (d : Int) : Int → Nat → List Int
+  | _, 0 => []
+  | a, k + 1 => (a + d) :: apList d (a + d) k
+
+theorem schedXT_ap (P : Nat) (d : Int) (hd : 0 < d) (hdP : d ≤ (P : Int)) : ∀ (k : Nat) (a : Int), SchedXT P a (apList d a k) := by
+  intro k
+  induction k with
+  | zero => intro a; trivial
+  | succ k ih => intro a; exact ⟨by omega, by omega, ih (a + d)⟩
+
+def evsQ : List Int := apList 90 68 95
+
+example (l : Int) (hq : QInv PV.C01.cfg2 PV.C01.M3 PV.C01.adr3 PV.C01.net3a 2 PV.C01.ns3c l) :
+    ClaimRun 2 7 (max 68 (l + 8000) + 100) (l + 8000) PV.C01.net3a evsQ :=
+  holder_crash_claim PV.C01.cfg2 PV.C01.cfg2_ok PV.C01.M3 PV.C01.adr3 2 PV.C01.ns3c l (max 68 (l + 8000)) evsQ PV.C01.net3a hq
+    (by show (68 : Int) ≤ max 68 (l + 8000); omega) (by show l + 8000 ≤ max 68 (l + 8000); omega)
+    (schedXT_ap 100 90 (by decide) (by decide) 95 68)
 
 end PV.C06
